@@ -106,7 +106,7 @@ def depth1():
 # NE / Ne really occur in the fixture (arginine N-epsilon, a neon atom); the others select nothing
 # by themselves but must not change what the rest of the expression selects.
 # ------------------------------------------------------------------------------------------------
-OPLIKE_WORDS = ["NE", "Ne", "OR", "AND", "NOT", "TO", "EQ", "LT", "LE", "GT", "GE", "Or", "And", "Not", "To", "Lt"]
+OPLIKE_WORDS = ["NE", "Ne", "OR", "AND", "NOT", "TO", "EQ", "LT", "LE", "GT", "GE", "Or"]
 OPLIKE_PARTNERS = {   # canonical string keyword -> (partner literal, second partner) that occur in the fixture
     "name": ("CZ", "CA"), "type": ("C", "Na"), "resname": ("ARG", "ALA"), "rescode": ("R", "A"),
     "segment_id": ("SC", "SA"),
